@@ -77,7 +77,10 @@ def execute(ctx, items, want_any=True, want_spec=True):
         for tag, out in (("all", r.impl_all), ("any", r.impl_any)):
             if out and "sols" in out:
                 for s in out["sols"]:
-                    reqs.append({"op": "valid", "mode": r.mode, "O": case["O"], "sol": s})
+                    vreq = {"op": "valid", "mode": r.mode, "O": case["O"], "sol": s}
+                    if case.get("root") is not None and r.mode == "ordered":
+                        vreq["root"] = case["root"]
+                    reqs.append(vreq)
         runs.append(r)
     outs = iter(ctx.driver.parallel(reqs))
     for r in runs:
@@ -241,7 +244,7 @@ def ordered_case(ctx, rng, max_o=4, max_s=4, max_f=3):
     c = gen.rand_case(rng, max_o, max_s, rng.randint(1, max_f), plain=False)
     if rng.random() < 0.3:
         c["costs"] = label_costs(rng)
-    if rng.random() < 0.15:
+    if rng.random() < 0.25:
         # prescribed root order: a common supersequence of the leaves if one exists
         from itertools import permutations
 
@@ -250,6 +253,13 @@ def ordered_case(ctx, rng, max_o=4, max_s=4, max_f=3):
         sup = [p for p in permutations(fams) if all(_subseq(s, p) for s in syns)]
         if sup:
             c["root"] = list(rng.choice(sup))
+            if rng.random() < 0.5 and not isinstance(c["O"], dict):
+                # a STRICT supersequence: families that no leaf carries, inserted anywhere (between two
+                # families such a family can be lost together with a neighbour as one run)
+                extra = max(fams) + 1
+                for _ in range(rng.randint(1, 2)):
+                    c["root"].insert(rng.randint(0, len(c["root"])), extra)
+                    extra += 1
     return c
 
 
